@@ -46,6 +46,9 @@ def build(e: Dict[str, Any]):
         md['column_id'] = e['column_id']
     c = _coords(pdm, e.get('coords'), pdm.Coords)
     bl = _coords(pdm, e.get('baseline'), pdm.Baseline)
+    if e.get('baseline') is not None and e.get('baseline_pts'):
+        # the same baseline box, its points listed in another order (right-to-left, with a back-step …)
+        bl = pdm.Baseline([tuple(p) for p in e['baseline_pts']])
     if e['kind'] == 'line':
         return pdm.PageXMLTextLine(doc_id='x', coords=c, baseline=bl, metadata=md)
     if e['kind'] == 'word':
@@ -54,9 +57,21 @@ def build(e: Dict[str, Any]):
 
 
 def eval_pair(ea, eb, thr, margin, pt) -> Dict[str, Any]:
+    return eval_objs(build(ea), build(eb), thr, margin, pt)
+
+
+def move_obj(obj, e):
+    """give a used object the geometry of element description e (assignment to .coords / .baseline)"""
+    pdm, _ = _mods()
+    obj.coords = _coords(pdm, e.get('coords'), pdm.Coords)
+    if hasattr(obj, 'baseline'):
+        fresh = build(e)
+        obj.baseline = getattr(fresh, 'baseline', None)
+
+
+def eval_objs(a, b, thr, margin, pt) -> Dict[str, Any]:
     pdm, ph = _mods()
     import pagexml.model.pagexml_document_model as pxm
-    a, b = build(ea), build(eb)
     t = thr[0] / thr[1]
     out = {
         'has_baseline': [pxm.has_baseline(a), pxm.has_baseline(b)],
@@ -90,13 +105,29 @@ def eval_pair(ea, eb, thr, margin, pt) -> Dict[str, Any]:
 def shift_elem(e, dx, dy):
     def sh(b):
         return None if b is None else [b[0] + dx, b[1] + dy, b[2] + dx, b[3] + dy]
-    return dict(e, coords=sh(e.get('coords')), baseline=sh(e.get('baseline')))
+    out = dict(e, coords=sh(e.get('coords')), baseline=sh(e.get('baseline')))
+    if e.get('baseline_pts'):
+        out['baseline_pts'] = [[p[0] + dx, p[1] + dy] for p in e['baseline_pts']]
+    return out
 
 
 def transpose_elem(e):
     def tr(b):
         return None if b is None else [b[1], b[0], b[3], b[2]]
-    return dict(e, coords=tr(e.get('coords')), baseline=tr(e.get('baseline')))
+    out = dict(e, coords=tr(e.get('coords')), baseline=tr(e.get('baseline')))
+    if e.get('baseline_pts'):
+        out['baseline_pts'] = [[p[1], p[0]] for p in e['baseline_pts']]
+    return out
+
+
+def used_variants(inp):
+    """the element descriptions that the used-object steps of impl() end up with"""
+    a, b, thr, m, pt = inp['a'], inp['b'], inp['thr'], inp['margin'], inp['pt']
+    dx, dy = inp['shift']
+    b2 = shift_elem(b, dx + 3, dy + 5)
+    a2 = shift_elem(a, -2 if (a.get('coords') or [9])[0] >= 2 else 1, 4)
+    return {'again': (a, b, thr, m, pt), 'again_first': (a, b, thr, m, pt), 'moved_b': (a, b2, thr, m, pt),
+            'moved_b_swapped': (b2, a, thr, m, pt), 'moved_ab': (a2, b2, thr, m, pt)}
 
 
 def variants(inp):
@@ -228,6 +259,18 @@ class C10(Check):
                 e['baseline'] = [x1, y, x2, rng.randint(y, c[3])]
             else:
                 e['baseline'] = pick()
+            if rng.random() < 0.5:
+                l, t, r, b = e['baseline']
+                pts = [[l, t], [r, b]] + [[rng.randint(l, r), rng.randint(t, b)] for _ in range(rng.choice([0, 1, 3]))]
+                order = rng.choice(['rtl', 'shuffle', 'backstep'])
+                if order == 'rtl':
+                    pts.sort(key=lambda p: -p[0])
+                elif order == 'shuffle':
+                    rng.shuffle(pts)
+                else:
+                    pts.sort(key=lambda p: p[0])
+                    pts.append([max(l, r - max(1, (r - l) // 3)), pts[-1][1]])
+                e['baseline_pts'] = pts
         if rng.random() < 0.1:
             e['scan_id'] = rng.choice(['s1', 's2'])
         if rng.random() < 0.1:
@@ -238,11 +281,30 @@ class C10(Check):
 
     # ------------------------------------------------------------------
     def impl(self, case: Case) -> Any:
-        return {name: eval_pair(*v) for name, v in variants(case.input).items()}
+        out = {name: eval_pair(*v) for name, v in variants(case.input).items()}
+        # used objects: every relation is a function of the CURRENT coordinates.  Compare the pair, ask again
+        # (second call = first call), then move one of the two objects and ask again on the same objects
+        inp = case.input
+        a, b, thr, m, pt = variants(inp)['ab']
+        dx, dy = inp['shift']
+        oa, ob = build(a), build(b)
+        first = eval_objs(oa, ob, thr, m, pt)
+        out['again'] = eval_objs(oa, ob, thr, m, pt)
+        out['again_first'] = first
+        call(move_obj, ob, shift_elem(b, dx + 3, dy + 5))
+        out['moved_b'] = eval_objs(oa, ob, thr, m, pt)
+        out['moved_b_swapped'] = eval_objs(ob, oa, thr, m, pt)
+        call(move_obj, oa, shift_elem(a, -2 if (a.get('coords') or [9])[0] >= 2 else 1, 4))
+        out['moved_ab'] = eval_objs(oa, ob, thr, m, pt)
+        return out
 
     def requests(self, case: Case):
         reqs = []
-        for name, (a, b, thr, m, pt) in variants(case.input).items():
+        allv = dict(variants(case.input))
+        allv.update(used_variants(case.input))
+        for name, (a, b, thr, m, pt) in allv.items():
+            a = {k: v for k, v in a.items() if k != 'baseline_pts'}
+            b = {k: v for k, v in b.items() if k != 'baseline_pts'}
             reqs.append({'p': 'C10', 'op': 'pair', 'args': {'a': a, 'b': b, 'thr': thr, 'margin': m, 'pt': pt}})
         return reqs
 
@@ -269,6 +331,12 @@ class C10(Check):
 
         def bad(key, what):
             fs.append(Finding(f'C10:{key}', what, case, out))
+        for name, v in used_variants(inp).items():
+            fresh = eval_pair(*v)
+            if out.get(name) != fresh:
+                diff = [f for f in FUNCS if out.get(name, {}).get(f) != fresh.get(f)]
+                bad(f'used-objects:{name}', f'{name}: on used objects {diff} differ from the answers for fresh objects '
+                                            f'with the same coordinates, e.g. {diff[0]}: {out[name][diff[0]]} vs {fresh[diff[0]]}')
         ca, cb = a.get('coords'), b.get('coords')
         both = ca is not None and cb is not None
         elems_in_statement = a['kind'] != 'word' and b['kind'] != 'word'
